@@ -16,6 +16,10 @@ Oracle (from the property statement and docs/queries.rst, independent of the mod
    O6 through Butler.query_data_ids / query_dimension_records a where string either works or raises
       InvalidQueryError, never another exception type; strings that are invalid by construction (syntax
       families, ill-typed families) must raise it and must not be accepted with some other meaning
+   O7 convert_expression_string_to_predicate (observed directly, every kept string, two dimension contexts) raises
+      InvalidQueryError or nothing; invalid-by-construction strings must raise it
+Tie K (conversion): the model's where_verdict (lexer, parser, Model/ParserConv.of_tree, C05's SqlExpr.conv; identifier
+      resolution observed from the real visitIdentifier) against what convert_expression_string_to_predicate did.
 """
 from __future__ import annotations
 
@@ -546,10 +550,10 @@ def run(ctx: Ctx):
     )
     # ---- tie T + obligations ----------------------------------------------------------------
     ctx.regen("grammar", tr.translate)
-    props_ok = ctx.build_props(extra_targets=["Model/ParserCheck.vo"])
+    props_ok = ctx.build_props(extra_targets=["Model/ParserCheck.vo", "Model/ParserConvCheck.vo", "Model/ParserShow.vo"])
     if not props_ok:
         from harness.common import coq_make
-        coq_make(["Model/ParserCheck.vo", "Proofs/ParserProofs.vo"])
+        coq_make(["Model/ParserCheck.vo", "Model/ParserConvCheck.vo", "Model/ParserShow.vo", "Proofs/ParserProofs.vo"])
 
     g = Gen(r)
     sizes = (320, 250, 600) if quick else (3000, 3000, 6000)
@@ -721,13 +725,23 @@ def _one_pass(ctx: Ctx, g: Gen, r, sizes, first: bool):
            "Import ListNotations.\n"
            "Definition mkl (c : list N) (t : list (string * option string)) (k : list token) (o : obs) := (c, t, k, o).\n"
            "Definition mkr (t : tree) (tb : list (string * string)) (c : list N) := (t, tb, c).\n")
-    for name, cs_, chk, meta in (("lex_parse", lex_cases, "chk_lex_parse", meta_l), ("print", print_cases, "chk_print", meta_pr)):
-        bad = ctx.coq_cases(name, hdr, cs_, chk, shard=500)
+    # lexer + parser on every string; then, in ONE evaluation per case, both printers: lexN(str(tree)) == print tree
+    # (token level) and str(tree) == show tree (character for character, Model/ParserShow.v)
+    hdr_s = hdr.replace("Model.ParserCheck.", "Model.ParserCheck Model.ParserShow.") + (
+        "Definition chk_print_show (c : tree * list (string * string) * list N) : bool := andb (chk_print c) (chk_show c).\n")
+    for name, h_, cs_, chk, meta in (("lex_parse", hdr, lex_cases, "chk_lex_parse", meta_l), ("print", hdr_s, print_cases, "chk_print_show", meta_pr)):
+        bad = ctx.coq_cases(name, h_, cs_, chk, shard=500)
         for i in (bad or [])[:6]:
             ctx.disagreement(name, meta[i], "model differs from the implementation")
         ctx.log(f"correspondence {name}: {len(cs_)} cases, disagreements {None if bad is None else len(bad)}")
+        if name == "print" and bad:
+            # say which of the two printers differs (few cases: cheap)
+            sub = [cs_[i] for i in bad[:40]]
+            for nm, ck in (("print_tokens", "chk_print"), ("show_chars", "chk_show")):
+                b2 = ctx.coq_cases(nm, h_, sub, ck, shard=500)
+                ctx.log(f"  of the first {len(sub)} differing cases, {nm} differs on {None if b2 is None else len(b2)}")
     # every tree the real parser returned satisfies the `canonical` predicate of the round-trip theorems
-    # (the converse direction `parse ts = Ok t -> canonical t` is not proved; it is checked here on every case)
+    # (theorem parse_canonical proves this for the model; checked here for the real parser's trees)
     hdr_c = hdr.replace("Model.ParserCheck.", "Model.ParserCheck Proofs.ParserProofs.") + (
         "Definition tun_of (tbl : list (string * option string)) (v : string) : string :=\n"
         "  (fix go l := match l with (k, Some v') :: r => if String.eqb v' v then k else go r | _ :: r => go r | [] => \"?\"%string end) tbl.\n"
@@ -828,6 +842,8 @@ CONV_EDGE = [
     "detector = 1..5", "1..5", "NOT 1..5", "(1..5)", "detector IN ((1..5))", "detector = nosuch", "detector.nosuch = 1", "a.b.c = 1", "visit.timespan.middle = 1", "x_y = 1", "ingest_date = 1",
     "seq_num = 1", "exposure_time > 1", "timespan OVERLAPS T'2020-01-01'", "timespan.begin < T'2020-01-01'", "region OVERLAPS POINT(1, 2)", "name = 'a'", "id = 1", "visit.id = 1", "visit.instrument = 'Cam'",
     "Visit.Seq_Num = 1", "DETECTOR = 1", "detector = :X", "htm7 = 1", "detector = 12345678901234567890", "detector = T'2020-01-01'", "visit.timespan.begin = '2020-01-01'",
+    "detector = :visit", "instrument = :band", "detector IN (:visit)", "detector = :null", ":detector = 1", "detector = :d.x", "visit.timespan.begin = :T0", "detector IN (:IDS)",
+    "detector = 1E3", "visit.exposure_time = 1E3", "visit.exposure_time = 2.E+2", "visit.exposure_time < 1e-3", "detector IN (1E3)", "visit.exposure_time IN (1E3, .5e1)",
     "visit.timespan.begin = T'2020-01-01'", "visit.timespan.end > T'mjd/58938.515'", "visit.timespan.begin = T'garbage'", "detector = 1 #", "detector == 1", "detector = 1 AND", "a b",
 ]
 
@@ -928,7 +944,7 @@ def _conv_stage(ctx: Ctx, r, cases, hdr: str, first: bool):
     for i in (bad or [])[:6]:
         ctx.disagreement("conv", meta[i], "model verdict (lexer, parser, of_tree, conv) differs from convert_expression_string_to_predicate")
     # evidence (non-vacuity): on a fixed-size sample, on how many cases does the model commit to Accept / Reject
-    step = max(1, len(conv_cases) // 600)
+    step = max(1, -(-len(conv_cases) // 300))
     sample = list(range(0, len(conv_cases), step))
     noclaim = ctx.coq_cases("conv_claims", hdr_v, [conv_cases[i] for i in sample], "chk_conv_claims", shard=700)
     if noclaim is not None:
